@@ -1,11 +1,17 @@
 package main
 
 import (
+	"zvh/engines/auth"
+	"zvh/engines/sortlim"
+	"zvh/engines/codec"
 	"zvh/engines/seq"
 	"zvh/engines/store"
 )
 
 func init() {
 	engines["seq"] = seq.Engine{}
+	engines["codec"] = codec.Engine{}
+	engines["sortlim"] = sortlim.Engine{}
+	engines["auth"] = auth.Engine{}
 	engines["store"] = store.Engine{}
 }
